@@ -1,4 +1,5 @@
 """C15 — schema equality is structural; schema == value means the value validates."""
+from ..common import safe_repr
 from .. import conforms, encode, gen_value, model, rebuild, runner, valcases
 from ..common import d42  # noqa: F401
 from niltype import Nil
@@ -148,15 +149,15 @@ def run(ctx):
 
     for s, w in pairs:
         nan = gen_value.has_nan(w) or False
-        info_d = dict(schema=repr(s), py_a=s)
-        ctx.case(repr(s), True)
+        info_d = dict(schema=safe_repr(s), py_a=s)
+        ctx.case(safe_repr(s), True)
         c = rebuild.clone(s)
         # reflexive / independent rebuild / != is the negation
         for a, b, what in ((s, s, "a schema is not equal to itself"), (s, c, "an independent rebuild is not equal"),
                            (c, s, "an independent rebuild is not equal (reversed)")):
             r = eq(a, b)
             if r is not True:
-                ctx.violation(what, result=repr(r), **info_d)
+                ctx.violation(what, result=safe_repr(r), **info_d)
             if (a != b) is not (not (a == b)):
                 ctx.violation("!= is not the negation of ==", **info_d)
         corr(s, c)
@@ -166,7 +167,7 @@ def run(ctx):
                 ctx.count("variants")
                 r1, r2 = eq(sub, v), eq(v, sub)
                 if r1 is not r2:
-                    ctx.violation("== is not symmetric", a=repr(sub), b=repr(v), results=[repr(r1), repr(r2)], py_a=sub, py_b=v)
+                    ctx.violation("== is not symmetric", a=safe_repr(sub), b=safe_repr(v), results=[safe_repr(r1), safe_repr(r2)], py_a=sub, py_b=v)
                 vals = [w] + gen_value.perturb(w, ctx.rnd)[:10]
                 if r1 is True:
                     # equal schemas give identical verdicts on every value
@@ -176,8 +177,8 @@ def run(ctx):
                         except Exception:
                             continue
                         if va != vb:
-                            ctx.violation("schemas compare equal but give different verdicts on a value", a=repr(sub), b=repr(v),
-                                          value=repr(x), py_a=sub, py_b=v, k8=universal_at_edge(sub) or universal_at_edge(v))
+                            ctx.violation("schemas compare equal but give different verdicts on a value", a=safe_repr(sub), b=safe_repr(v),
+                                          value=safe_repr(x), py_a=sub, py_b=v, k8=universal_at_edge(sub) or universal_at_edge(v))
                             break
                 corr(sub, v)
         # schema == value  <=>  value validates
@@ -195,7 +196,7 @@ def run(ctx):
                 continue
             got = eq(s, x)
             if got is not want:
-                ctx.violation("schema == value disagrees with validation", value=repr(x), eq=repr(got), validates=want, **info_d)
+                ctx.violation("schema == value disagrees with validation", value=safe_repr(x), eq=safe_repr(got), validates=want, **info_d)
             # ... and "validates" in the sense of the schema's declared meaning (the independent Conforms oracle), not only of
             # whatever validate() answers
             try:
@@ -203,7 +204,7 @@ def run(ctx):
             except Exception:  # noqa: BLE001
                 means = None
             if isinstance(got, bool) and means is not None and got is not means and not gen_value.has_nan(x):
-                ctx.violation("schema == value disagrees with the declared meaning of the schema", value=repr(x), eq=repr(got),
+                ctx.violation("schema == value disagrees with the declared meaning of the schema", value=safe_repr(x), eq=safe_repr(got),
                               conforms=means, **info_d)
             # != is the negation of ==, whichever side the schema is on
             try:
@@ -212,9 +213,9 @@ def run(ctx):
                 continue
             ctx.count("ne_value_probes")
             if isinstance(got, bool) and (ne1 is not (not got)):
-                ctx.violation("!= is not the negation of == (schema against a value)", value=repr(x), eq=repr(got), ne=repr(ne1), **info_d)
+                ctx.violation("!= is not the negation of == (schema against a value)", value=safe_repr(x), eq=safe_repr(got), ne=safe_repr(ne1), **info_d)
             elif isinstance(eq2, bool) and isinstance(ne2, bool) and (ne2 is not (not eq2)):
-                ctx.violation("!= is not the negation of == (value against a schema)", value=repr(x), eq=repr(eq2), ne=repr(ne2), **info_d)
+                ctx.violation("!= is not the negation of == (value against a schema)", value=safe_repr(x), eq=safe_repr(eq2), ne=safe_repr(ne2), **info_d)
     # corpus: the recorded findings' witnesses (classified, not suppressed wholesale)
     nan = float("nan")
     for a, b, x in ((schema.list([schema.any, ...]), schema.list([schema.any, schema.any]), [1]),
@@ -224,8 +225,8 @@ def run(ctx):
         if eq(a, b) is True:
             try:
                 if validate(a, x).has_errors() != validate(b, x).has_errors():
-                    ctx.violation("schemas compare equal but give different verdicts on a value", a=repr(a), b=repr(b),
-                                  value=repr(x), py_a=a, py_b=b)
+                    ctx.violation("schemas compare equal but give different verdicts on a value", a=safe_repr(a), b=safe_repr(b),
+                                  value=safe_repr(x), py_a=a, py_b=b)
             except Exception:
                 pass
         corr(a, b)
@@ -241,13 +242,13 @@ def run(ctx):
             ctx.count("narrowed_pairs")
             r1, r2 = eq(a, b), eq(b, a)
             if r1 is not r2:
-                ctx.violation("== is not symmetric", a=repr(a), b=repr(b), results=[repr(r1), repr(r2)], py_a=a, py_b=b)
+                ctx.violation("== is not symmetric", a=safe_repr(a), b=safe_repr(b), results=[safe_repr(r1), safe_repr(r2)], py_a=a, py_b=b)
             if r1 is True:
                 for x in ([1], [1, 2], [1, 2, 3], [], [2], {"a": 1}, {}):
                     try:
                         if validate(a, x).has_errors() != validate(b, x).has_errors():
-                            ctx.violation("schemas compare equal but give different verdicts on a value", a=repr(a), b=repr(b),
-                                          value=repr(x), py_a=a, py_b=b, k8=universal_at_edge(a) or universal_at_edge(b))
+                            ctx.violation("schemas compare equal but give different verdicts on a value", a=safe_repr(a), b=safe_repr(b),
+                                          value=safe_repr(x), py_a=a, py_b=b, k8=universal_at_edge(a) or universal_at_edge(b))
                             break
                     except Exception:
                         pass
@@ -303,14 +304,14 @@ def run(ctx):
             ctx.count("twin_pairs")
             r1, r2 = eq(a, b), eq(b, a)
             if r1 is not r2:
-                ctx.violation("== is not symmetric", a=repr(a), b=repr(b), results=[repr(r1), repr(r2)], py_a=a, py_b=b)
+                ctx.violation("== is not symmetric", a=safe_repr(a), b=safe_repr(b), results=[safe_repr(r1), safe_repr(r2)], py_a=a, py_b=b)
             if r1 is True:
                 for x0 in inner_probes:
                     x = [x0, [x0], {"k": x0}, x0, {"a": [x0]}][wi]
                     try:
                         if validate(a, x).has_errors() != validate(b, x).has_errors():
-                            ctx.violation("schemas compare equal but give different verdicts on a value", a=repr(a), b=repr(b),
-                                          value=repr(x), py_a=a, py_b=b)
+                            ctx.violation("schemas compare equal but give different verdicts on a value", a=safe_repr(a), b=safe_repr(b),
+                                          value=safe_repr(x), py_a=a, py_b=b)
                             break
                     except Exception:  # noqa: BLE001
                         pass
@@ -325,13 +326,13 @@ def run(ctx):
                 ctx.count("smallscope_pairs")
                 r1, r2 = eq(a, b), eq(b, a)
                 if r1 is not r2:
-                    ctx.violation("== is not symmetric", a=repr(a), b=repr(b), results=[repr(r1), repr(r2)], py_a=a, py_b=b)
+                    ctx.violation("== is not symmetric", a=safe_repr(a), b=safe_repr(b), results=[safe_repr(r1), safe_repr(r2)], py_a=a, py_b=b)
                 if r1 is True and a is not b:
                     for x in svals:
                         try:
                             if validate(a, x).has_errors() != validate(b, x).has_errors():
-                                ctx.violation("schemas compare equal but give different verdicts on a value", a=repr(a), b=repr(b),
-                                              value=repr(x), py_a=a, py_b=b, k8=universal_at_edge(a) or universal_at_edge(b))
+                                ctx.violation("schemas compare equal but give different verdicts on a value", a=safe_repr(a), b=safe_repr(b),
+                                              value=safe_repr(x), py_a=a, py_b=b, k8=universal_at_edge(a) or universal_at_edge(b))
                                 break
                         except Exception:  # noqa: BLE001
                             pass
@@ -346,9 +347,9 @@ def run(ctx):
             ctx.count("cross_class_pairs")
             r1, r2 = eq(a, b), eq(b, a)
             if r1 is not r2:
-                ctx.violation("== is not symmetric", a=repr(a), b=repr(b), results=[repr(r1), repr(r2)], py_a=a, py_b=b)
+                ctx.violation("== is not symmetric", a=safe_repr(a), b=safe_repr(b), results=[safe_repr(r1), safe_repr(r2)], py_a=a, py_b=b)
             if r1 is True and type(a) is not type(b):
-                ctx.violation("schemas of different types compare equal", a=repr(a), b=repr(b), py_a=a, py_b=b)
+                ctx.violation("schemas of different types compare equal", a=safe_repr(a), b=safe_repr(b), py_a=a, py_b=b)
             corr(a, b)
     try:
         fn = schema.float(nan)
@@ -356,7 +357,7 @@ def run(ctx):
         fn = None
         ctx.count("nan_schema_not_declarable")
     if fn is not None and eq(fn, fn) is not True:
-        ctx.violation("a schema is not equal to itself", schema=repr(fn), py_a=fn)
+        ctx.violation("a schema is not equal to itself", schema=safe_repr(fn), py_a=fn)
     # transitivity on random triples from the pool + clones
     for _ in range(ctx.n(300, 3000)):
         a = ctx.rnd.choice(pool)
@@ -364,9 +365,9 @@ def run(ctx):
         c = rebuild.clone(b) if ctx.rnd.random() < .5 else ctx.rnd.choice(pool)
         ctx.count("triples")
         if eq(a, b) is True and eq(b, c) is True and eq(a, c) is not True:
-            ctx.violation("== is not transitive", a=repr(a), b=repr(b), c=repr(c), py_a=a, py_b=b)
+            ctx.violation("== is not transitive", a=safe_repr(a), b=safe_repr(b), c=safe_repr(c), py_a=a, py_b=b)
         if eq(a, b) is not eq(b, a):
-            ctx.violation("== is not symmetric", a=repr(a), b=repr(b), py_a=a, py_b=b)
+            ctx.violation("== is not symmetric", a=safe_repr(a), b=safe_repr(b), py_a=a, py_b=b)
         corr(a, b)
     res = model.run_batch(reqs)
     bad = 0
@@ -376,11 +377,11 @@ def run(ctx):
         if (r == "1") != (real is True):
             bad += 1
             if bad <= 10:
-                ctx.breakage("correspondence", "`==` differs between model and code", a=repr(a)[:400], b=repr(b)[:400],
+                ctx.breakage("correspondence", "`==` differs between model and code", a=safe_repr(a)[:400], b=safe_repr(b)[:400],
                              detail=f"real {real!r} model {r}")
     ctx.cov["corr_disagreements"] = bad
     for s, w in pairs[:3]:
-        ctx.sample({"schema": repr(s)[:300]})
+        ctx.sample({"schema": safe_repr(s)[:300]})
 
 
 def replay(path):
